@@ -6,6 +6,15 @@
     [CFact n flat]: [factorize(m).collect()] for m = 0..n of [Sieve::new(n)], flattened:
       the pairs [p; c] of one m followed by -1; a panic inside the iterator is -2.
     [CPanic n]: [Sieve::new(n)] itself panicked (never happens with the real code).
+    [CIncoherent n]: the executor's internal cross-checks on [Sieve::new(n)] failed (observation line
+      [X ...]): the same value read twice through the public accessors differed (other order, second
+      call, other [Sieve] object of the same limit, reads between [factorize] calls), a provided
+      [Iterator] method ([collect], [for], [count], [last], [fold], [nth], [size_hint], ...) disagreed
+      with the hand-written [next()] walk, or an exhausted iterator did not keep returning [None].
+      The model is a pure function of the limit, so no such observation equals it; the specification
+      fixes every answer, so two different answers cannot both satisfy it: both checks fail.
+      The random-history ops [tabr]/[factr] of the executor print the same observation as
+      [tab]/[fact] and are fed to [CTab]/[CFact].
 
     [model_check]: the observation equals what the Gallina model (Model.v) computes.
     [spec_check]: the observation satisfies the property, decided by trial division written here
@@ -20,7 +29,8 @@ Open Scope Z_scope.
 Inductive case :=
 | CTab (n : Z) (tmnp : list Z) (tisp : string) (tprimes : list Z)
 | CFact (n : Z) (flat : list Z)
-| CPanic (n : Z).
+| CPanic (n : Z)
+| CIncoherent (n : Z).
 
 (** * model side *)
 Definition zs (l : list nat) : list Z := List.map Z.of_nat l.
@@ -44,6 +54,7 @@ Definition model_check (c : case) : bool :=
       (0 <=? n) && leqb Z.eqb (zs (mnp s)) m && String.eqb (bstr (isp s)) i && leqb Z.eqb (zs (prs s)) p
   | CFact n f => (0 <=? n) && leqb Z.eqb (model_flat (Z.to_nat n)) f
   | CPanic _ => false
+  | CIncoherent _ => false
   end.
 
 (** * specification side: trial division *)
@@ -111,6 +122,7 @@ Definition spec_check (c : case) : bool :=
       let rs := split_recs f [] in
       (0 <=? n) && (Z.of_nat (List.length rs) =? n + 1) && recs_ok cs 0 rs
   | CPanic _ => false
+  | CIncoherent _ => false
   end.
 
 (** what the model computes on the input of a case (for replay files) *)
@@ -118,5 +130,6 @@ Definition explain (c : case) : list Z * string * list Z * list Z :=
   match c with
   | CTab n _ _ _ => let s := sieve (Z.to_nat n) in (zs (mnp s), bstr (isp s), zs (prs s), [])
   | CFact n _ => ([], EmptyString, [], model_flat (Z.to_nat n))
-  | CPanic n => let s := sieve (Z.to_nat n) in (zs (mnp s), bstr (isp s), zs (prs s), [])
+  | CPanic n | CIncoherent n =>
+      let s := sieve (Z.to_nat n) in (zs (mnp s), bstr (isp s), zs (prs s), model_flat (Z.to_nat n))
   end.
